@@ -147,6 +147,44 @@ def run_case(case):
             if len(replies) > want:
                 return replies[want][0]
             return None
+    elif case['edge'] == 'wsgi-http':
+        # the same WSGI application behind gevent's WSGIServer, driven by a real HTTP client on loopback
+        from gevent.pywsgi import WSGIServer
+        from http import client as httplib
+        from slimta.http import HTTPConnection
+        if not accepted:
+            accepted = rcpts
+            rejected = set()
+        edge = WsgiEdge(queue, hostname='edge')
+        server = WSGIServer(('127.0.0.1', 0), edge, log=None, error_log=None)
+        server.start()
+        status = {}
+
+        def run():
+            try:
+                conn = HTTPConnection('127.0.0.1', server.server_port)
+                conn.putrequest('POST', '/')
+                conn.putheader('Content-Type', 'message/rfc822')
+                conn.putheader('Content-Length', str(len(body)))
+                conn.putheader('X-Ehlo', 'c')
+                conn.putheader('X-Envelope-Sender', base64.b64encode(b's@x.example').decode())
+                for r in accepted:
+                    conn.putheader('X-Envelope-Recipient', base64.b64encode(r.encode()).decode())
+                conn.endheaders(body)
+                res = conn.getresponse()
+                status['status'] = '%d %s' % (res.status, res.reason)
+                res.read()
+                conn.close()
+            except Exception as e:
+                result['exc'] = e
+            finally:
+                server.stop()
+
+        def final_reply():
+            s = status.get('status')
+            if not s:
+                return None
+            return {'2': '250', '5': '550', '4': '450'}.get(s[0], s[:3]) if s[:3] != '503' else '450'
     else:
         status = {}
         if not accepted:
@@ -287,6 +325,10 @@ def run_shard(ctx):
             continue
         f, nt = run_case(case)
         ctx.record(repr(case), nt, labels=['table', 'edge=' + case['edge'], 'queue=' + case['queue']], case=case, failures=f)
+        if case['edge'] == 'wsgi' and (ctx.thorough or i % 8 == 0):
+            case2 = dict(case, edge='wsgi-http')
+            f, nt = run_case(case2)
+            ctx.record(repr(case2), nt, labels=['table', 'edge=wsgi-http', 'queue=' + case['queue']], case=case2, failures=f)
 
     def one(case):
         f, nt = run_case(case)
@@ -295,7 +337,7 @@ def run_shard(ctx):
 
 
 def replay(case):
-    if case.get('edge') not in ('smtp', 'wsgi') or case.get('queue') not in ('queue', 'proxy'):
+    if case.get('edge') not in ('smtp', 'wsgi', 'wsgi-http') or case.get('queue') not in ('queue', 'proxy'):
         return []
     case = dict(case)
     case['nrcpt'] = max(1, min(5, int(case.get('nrcpt', 1))))
